@@ -583,7 +583,7 @@ public:
    {
       for(int i = IdxSet::size() - 1; i >= 0; --i)
       {
-         if(index(i) >= newdim)
+         if(IdxSet::index(i) >= newdim)
             remove(i);
       }
 
